@@ -19,6 +19,8 @@ func main() {
 		switch *child {
 		case "c19":
 			c19ChildMain(*spec)
+		case "c36conc":
+			c36ConcChildMain(*spec)
 		default:
 			fmt.Fprintln(os.Stderr, "engine cachetx: unknown child mode", *child)
 			os.Exit(3)
